@@ -43,6 +43,9 @@ type twinParams struct {
 	// Quiet: the per-case probe for the null-JSON panic adapts the workload but does not report
 	// (C17 end-to-end: that finding belongs to C07)
 	Quiet bool `json:"quiet,omitempty"`
+	// Partial: the history also updates documents through objects that carry only the patched
+	// fields (client.NewDocWithID + Set)
+	Partial bool `json:"partial,omitempty"`
 }
 
 type twin struct {
@@ -67,8 +70,11 @@ type twin struct {
 	// collection with an index on that field (probed per case, reported as its own finding);
 	// such histories then use non-null JSON values only
 	avoidNullJSON bool
-	curFilter     *qgen.Filter              // filter of the filtered write being applied
-	preRows       map[string]map[string]any // B's live rows before that write, by docID
+	curFilter     *qgen.Filter // filter of the filtered write being applied
+	// partial: documents updated through a document object that carries only the patched fields
+	// (client.NewDocWithID + Set) while a live index covered a field the object did not carry
+	partial map[string]bool
+	preRows map[string]map[string]any // B's live rows before that write, by docID
 }
 
 func (t *twin) logf(f string, a ...any) {
@@ -111,7 +117,7 @@ func clipList(l []string, n int) []string {
 func runTwin(ctx context.Context, c core.Case, r *core.Rec) {
 	var p twinParams
 	c.P(&p)
-	t := &twin{ctx: ctx, p: p, rng: c.Rng(), r: r, colID: map[*core.Node]string{}}
+	t := &twin{ctx: ctx, p: p, rng: c.Rng(), r: r, colID: map[*core.Node]string{}, partial: map[string]bool{}}
 	t.A = core.NewNode(ctx, core.NodeOpts{})
 	t.B = core.NewNode(ctx, core.NodeOpts{})
 	defer t.A.Close()
@@ -191,6 +197,8 @@ func runTwin(ctx context.Context, c core.Case, r *core.Rec) {
 		return
 	case "halloween":
 		t.anchorHalloween()
+	case "partial":
+		t.anchorPartial()
 	default:
 		t.history()
 	}
@@ -364,6 +372,15 @@ var twinOps = []string{"create-api", "create-gql", "create-many", "update-api", 
 	"delete-api", "delete-gql", "delete-filter-api", "delete-filter-gql", "remote-create", "remote-update", "remote-delete",
 	"recreate-deleted", "delete-missing", "update-noop"}
 
+// ops: the operation kinds of the case. Cases with Partial also update through partial document
+// objects (witnesses stored before that operation existed replay their old histories unchanged).
+func (t *twin) ops() []string {
+	if t.p.Partial {
+		return append(append([]string{}, twinOps...), "update-partial-api")
+	}
+	return twinOps
+}
+
 func (t *twin) history() {
 	p := t.p
 	// initial contents
@@ -398,7 +415,7 @@ func (t *twin) history() {
 		}
 		var op string
 		if p.Anchor == "ops" {
-			op = twinOps[(t.step-1)%len(twinOps)]
+			op = t.ops()[(t.step-1)%len(t.ops())]
 		} else {
 			op = t.pickOp()
 		}
@@ -413,16 +430,16 @@ func (t *twin) history() {
 func (t *twin) pickOp() string {
 	w := map[string]int{"create-api": 10, "create-gql": 8, "create-many": 4, "update-api": 14, "update-gql": 10, "update-filter-api": 7, "update-filter-gql": 5,
 		"delete-api": 5, "delete-gql": 4, "delete-filter-api": 4, "delete-filter-gql": 3, "remote-create": 4, "remote-update": 6, "remote-delete": 2,
-		"recreate-deleted": 2, "delete-missing": 1, "update-noop": 2}
+		"recreate-deleted": 2, "delete-missing": 1, "update-noop": 2, "update-partial-api": 8}
 	if t.C == nil {
 		w["remote-create"], w["remote-update"], w["remote-delete"] = 0, 0, 0
 	}
 	tot := 0
-	for _, o := range twinOps {
+	for _, o := range t.ops() {
 		tot += w[o]
 	}
 	x := t.rng.IntN(tot)
-	for _, o := range twinOps {
+	for _, o := range t.ops() {
 		x -= w[o]
 		if x < 0 {
 			return o
@@ -480,7 +497,7 @@ func (t *twin) apply(op string) {
 	switch op {
 	case "create-api", "create-gql", "create-many":
 		t.opCreate(op)
-	case "update-api", "update-gql", "update-noop":
+	case "update-api", "update-gql", "update-noop", "update-partial-api":
 		t.opUpdate(op)
 	case "update-filter-api", "update-filter-gql":
 		t.opUpdateFilter(op)
@@ -610,6 +627,10 @@ func (t *twin) both(what string, local bool, wouldDup *bool, fn0 func(n *core.No
 				}
 			}
 		}
+		if strings.HasPrefix(what, "update-partial-api") && t.aboutPartial(what) && strings.Contains(oa.err.Error(), "isUpdatingIndexedFields") {
+			t.r.Violate("panic/update-with-partial-document-object/unique-index-compares-field-not-carried", "updating a document through an object that carries only the patched fields panics under a unique index: "+what+": "+firstLineOf(oa.err.Error()), t.detail(map[string]any{"stack": oa.err.Error()}))
+			return oa, false
+		}
 		t.r.Violate("panic/write-on-indexed-side/"+panicFrame(oa.err.Error()), "write panics on the indexed database: "+what+": "+firstLineOf(oa.err.Error()), t.detail(map[string]any{"stack": oa.err.Error()}))
 		return oa, false
 	}
@@ -645,6 +666,11 @@ func (t *twin) both(what string, local bool, wouldDup *bool, fn0 func(n *core.No
 		side, e := "indexed", oa.err
 		if oa.err == nil {
 			side, e = "index-free", ob.err
+		}
+		if side == "indexed" && (t.aboutPartial(what) || t.curFilter != nil && len(t.partial) > 0) && (strings.Contains(e.Error(), "corrupted index") || isUniqueErr(e)) {
+			t.r.Violate(sigPartialUpdate, fmt.Sprintf("a document updated earlier through an object that carried only the patched fields can no longer be written on the indexed database: %s: %v", what, e), t.detail(nil))
+			t.stop = true
+			return oa, false
 		}
 		t.r.Violate("write/error-only-on-"+side+"-side/"+errClassTwin(e), fmt.Sprintf("the same write fails only on the %s database: %s: %v", side, what, e), t.detail(nil))
 		t.stop = true
@@ -809,6 +835,92 @@ func updateAPI(ctx context.Context, n *core.Node, docID string, patch map[string
 	return outcome{err: col.Update(ctx, doc), ids: []string{docID}}
 }
 
+// updatePartialAPI updates a document through a document object that carries only the fields
+// being changed (client.NewDocWithID + Set): the way the client package documents for patching
+// a document without reading it first.
+func updatePartialAPI(ctx context.Context, n *core.Node, docID string, patch map[string]any) outcome {
+	col := n.Col(ctx, "U")
+	id, err := client.NewDocIDFromString(docID)
+	if err != nil {
+		return outcome{err: err}
+	}
+	doc, err := client.NewDocWithID(id, col.Definition())
+	if err != nil {
+		return outcome{err: err}
+	}
+	keys := make([]string, 0, len(patch))
+	for k := range patch {
+		keys = append(keys, k)
+	}
+	sort.Strings(keys)
+	for _, k := range keys {
+		if err := doc.Set(k, patch[k]); err != nil {
+			return outcome{err: err}
+		}
+	}
+	return outcome{err: col.Update(ctx, doc), ids: []string{docID}}
+}
+
+// indexedFieldsNotIn lists the fields (store names) of live indexes that the patch does not carry.
+func (t *twin) indexedFieldsNotIn(patch map[string]any) []string {
+	set := map[string]bool{}
+	for _, s := range t.liveSpecs() {
+		for _, f := range s.Fields {
+			n := qgen.FieldByName(f.Name).StoreName()
+			if _, ok := patch[n]; !ok {
+				set[n] = true
+			}
+		}
+	}
+	var out []string
+	for n := range set {
+		out = append(out, n)
+	}
+	sort.Strings(out)
+	return out
+}
+
+// probeEntries asks both databases for the document through every live index whose fields are all
+// scalar: an equality condition on each field of the index with the value the index-free database
+// shows (the request is served from that index on A).
+func (t *twin) probeEntries(id string) {
+	var row qgen.Row
+	for _, r := range t.liveRows(t.B) {
+		if fmt.Sprint(r["_docID"]) == id {
+			row = r
+		}
+	}
+	if row == nil {
+		return
+	}
+	for _, s := range t.liveSpecs() {
+		f := &qgen.Filter{Op: "_and"}
+		for _, x := range s.Fields {
+			fd := qgen.FieldByName(x.Name)
+			if fd.Kind.IsArray() || fd.Kind == qgen.KJSON || fd.Kind == qgen.KBlob {
+				f = nil
+				break
+			}
+			v := rowValue(row[fd.StoreName()])
+			if !qgen.FitsGQLInt(v) {
+				f = nil
+				break
+			}
+			f.Sub = append(f.Sub, &qgen.Filter{Op: "leaf", Field: fd.StoreName(), Cmp: "_eq", Val: v})
+		}
+		if f == nil || t.stop {
+			continue
+		}
+		if len(f.Sub) == 1 {
+			f = f.Sub[0]
+		}
+		t.r.Count("entry_probes_after_partial_update", 1)
+		t.checkQuery(&qgen.Query{Filter: f})
+	}
+}
+
+const sigPartialUpdate = "index/update-with-partial-document-object/fields-not-carried-are-reindexed-as-null"
+
 func (t *twin) opUpdate(op string) {
 	id, row := t.pickLive()
 	if id == "" {
@@ -833,7 +945,31 @@ func (t *twin) opUpdate(op string) {
 		t.both(fmt.Sprintf("update-gql %s %s", shortID(id), b), true, dup, func(n *core.Node) outcome { return gqlMutation(t.ctx, n, req, "update_U") })
 		return
 	}
+	if op == "update-partial-api" {
+		left := t.indexedFieldsNotIn(patch)
+		if len(left) > 0 {
+			// marked before the write: a failure of the write itself is judged with this knowledge
+			t.partial[id] = true
+			t.r.Count("partial_updates_leaving_an_indexed_field_out", 1)
+		}
+		_, ok := t.both(fmt.Sprintf("%s %s %s (indexed fields not carried: %v)", op, shortID(id), b, left), true, dup, func(n *core.Node) outcome { return updatePartialAPI(t.ctx, n, id, patch) })
+		if ok && len(left) > 0 {
+			t.probeEntries(id)
+		}
+		return
+	}
 	t.both(fmt.Sprintf("%s %s %s", op, shortID(id), b), true, dup, func(n *core.Node) outcome { return updateAPI(t.ctx, n, id, patch) })
+}
+
+// aboutPartial tells whether the text of a write names a document that was updated through a
+// partial document object.
+func (t *twin) aboutPartial(what string) bool {
+	for id := range t.partial {
+		if strings.Contains(what, " "+shortID(id)) {
+			return true
+		}
+	}
+	return false
 }
 
 // rowValue converts a result value back to a Go value usable in a document.
@@ -1576,6 +1712,15 @@ func (t *twin) reportOrderDiff(q *qgen.Query, req string, rowsA, rowsB []qgen.Ro
 			return
 		}
 	}
+	if !onA {
+		for _, r := range rowsA {
+			if t.partial[fmt.Sprint(r["_docID"])] {
+				t.r.Violate(sigPartialUpdate, "index-served order places a document that was updated through an object carrying only the patched fields (client.NewDocWithID + Set) where the null entry of a field it did not carry sorts: "+req, det)
+				t.stop = true
+				return
+			}
+		}
+	}
 	switch {
 	case upA == 0:
 		t.r.Violate("order/"+path(onA)+"/first-key-out-of-order/indexed-side", "ordered result of the indexed database is not sorted by its first key: "+req, det)
@@ -1674,6 +1819,22 @@ func (t *twin) structural() {
 				kind = "stale-entries"
 			case len(stale) == 0:
 				kind = "missing-entries"
+			}
+			if len(t.partial) > 0 {
+				// every differing entry belongs to a document that was updated through a partial document object
+				all := true
+				for _, e := range append(append([]string{}, stale...), missing...) {
+					hit := false
+					for id := range t.partial {
+						hit = hit || strings.Contains(e, id)
+					}
+					all = all && hit
+				}
+				if all {
+					t.r.Violate(sigPartialUpdate, fmt.Sprintf("index %s: the entries of documents updated through an object that carried only the patched fields differ from the entries rebuilt from the documents (%d only maintained, %d only rebuilt)", s.String(), len(stale), len(missing)),
+						t.detail(map[string]any{"only_maintained": clipList(stale, 10), "only_rebuilt": clipList(missing, 10)}))
+					continue
+				}
 			}
 			t.r.Violate("structural/"+kind, fmt.Sprintf("index %s maintained incrementally differs from the index rebuilt from the documents: %d entries only in the maintained index, %d only in the rebuilt one", s.String(), len(stale), len(missing)),
 				t.detail(map[string]any{"only_maintained": clipList(stale, 10), "only_rebuilt": clipList(missing, 10)}))
@@ -1779,6 +1940,36 @@ func (t *twin) anchorHalloween() {
 	})
 	t.compareState("update-filter-api")
 	t.queries()
+}
+
+// anchorPartial: three documents; one is updated through an object that carries only a field no
+// index covers, one through an object that carries one of the two fields of a composite index.
+func (t *twin) anchorPartial() {
+	for n, i := range []int{1, 2, 3} {
+		m := map[string]any{"k": t.nextK, "i": i, "s": []string{"a", "b", "ab"}[n], "d": n, "u": n}
+		t.nextK++
+		if o, ok := t.both("create "+qgen.Lit(m), true, nil, func(n *core.Node) outcome { return createAPI(t.ctx, n, m) }); ok {
+			t.docs = append(t.docs, o.ids...)
+		}
+	}
+	for n, patch := range []map[string]any{{"f": 0.5}, {"d": 3}} {
+		if t.stop || len(t.docs) < 3 {
+			return
+		}
+		id := t.docs[n]
+		t.step++
+		t.r.Count("op/update-partial-api", 1)
+		t.setFilterCtx(nil)
+		left := t.indexedFieldsNotIn(patch)
+		t.partial[id] = true
+		t.r.Count("partial_updates_leaving_an_indexed_field_out", 1)
+		b, _ := json.Marshal(patch)
+		if _, ok := t.both(fmt.Sprintf("update-partial-api %s %s (indexed fields not carried: %v)", shortID(id), b, left), true, t.wouldDuplicate(map[string]map[string]any{id: patch}, nil), func(n *core.Node) outcome { return updatePartialAPI(t.ctx, n, id, patch) }); ok {
+			t.probeEntries(id)
+		}
+		t.compareState("update-partial-api")
+		t.queries()
+	}
 }
 
 // anchorZeroTime: the DateTime value 0001-01-01T00:00:00Z (Go's zero time) is stored as null by
@@ -1923,12 +2114,15 @@ func twinCases(seed uint64, n int, edge bool) []core.Case {
 	}
 	// anchors: every operation kind once, in each index life-cycle mode, with a unique and a composite index
 	for i, m := range twinModes {
-		p := twinParams{Specs: []qgen.IndexSpec{sp(true, "u"), sp(false, "i", "s-"), sp(false, "d-")}, Mode: m, Steps: 2 * len(twinOps), Queries: 6, Anchor: "ops", Edge: edge}
+		p := twinParams{Specs: []qgen.IndexSpec{sp(true, "u"), sp(false, "i", "s-"), sp(false, "d-")}, Mode: m, Steps: 2 * (len(twinOps) + 1), Queries: 6, Anchor: "ops", Edge: edge, Partial: true}
 		cs = append(cs, core.MkCase("twin/anchor-ops/"+m, uint64(11+i), p))
 	}
 	cs = append(cs, core.MkCase("twin/anchor-halloween", 3, twinParams{Specs: []qgen.IndexSpec{sp(false, "i")}, Mode: "api-before", Queries: 6, Anchor: "halloween", NoRemote: true, Edge: edge}))
+	// updates through partial document objects under plain and under unique indexes
+	cs = append(cs, core.MkCase("twin/anchor-partial/plain", 4, twinParams{Specs: []qgen.IndexSpec{sp(false, "i"), sp(false, "s-", "d")}, Mode: "api-before", Queries: 6, Anchor: "partial", NoRemote: true, Edge: edge, Partial: true}))
+	cs = append(cs, core.MkCase("twin/anchor-partial/unique", 4, twinParams{Specs: []qgen.IndexSpec{sp(true, "u")}, Mode: "sdl", Queries: 6, Anchor: "partial", NoRemote: true, Edge: edge, Partial: true}))
 	// low-cardinality unique index: legitimate rejections are certain
-	cs = append(cs, core.MkCase("twin/anchor-ops/unique-low", 5, twinParams{Specs: []qgen.IndexSpec{sp(true, "i")}, Mode: "api-before", Steps: 2 * len(twinOps), Queries: 4, Anchor: "ops", Edge: edge}))
+	cs = append(cs, core.MkCase("twin/anchor-ops/unique-low", 5, twinParams{Specs: []qgen.IndexSpec{sp(true, "i")}, Mode: "api-before", Steps: 2 * (len(twinOps) + 1), Queries: 4, Anchor: "ops", Edge: edge, Partial: true}))
 	rng := rand.New(rand.NewPCG(seed, 707))
 	for i := 0; i < n; i++ {
 		var specs []qgen.IndexSpec
@@ -1937,7 +2131,7 @@ func twinCases(seed uint64, n int, edge bool) []core.Case {
 		} else {
 			specs = twinIndexSets[rng.IntN(len(twinIndexSets))]
 		}
-		p := twinParams{Specs: specs, Mode: twinModes[rng.IntN(len(twinModes))], Steps: 8 + rng.IntN(8), Queries: 24, Edge: edge}
+		p := twinParams{Specs: specs, Mode: twinModes[rng.IntN(len(twinModes))], Steps: 8 + rng.IntN(8), Queries: 24, Edge: edge, Partial: true}
 		if rng.IntN(3) != 0 {
 			p.JSONMode = "objects"
 		}
@@ -1978,7 +2172,7 @@ var twinFloors = append(cellFloors(), []string{"index_served_queries", "queries_
 	"remote_merges", "unique_legit_rejections", "unique_invariant_checks", "sliced_queries_total_order",
 	"op/create-api", "op/create-gql", "op/create-many", "op/update-api", "op/update-gql", "op/update-filter-api", "op/update-filter-gql",
 	"op/delete-api", "op/delete-gql", "op/delete-filter-api", "op/delete-filter-gql", "op/remote-create", "op/remote-update", "op/remote-delete",
-	"op/index-create", "op/index-drop", "state_comparisons"}...)
+	"op/index-create", "op/index-drop", "state_comparisons", "op/update-partial-api", "partial_updates_leaving_an_indexed_field_out", "entry_probes_after_partial_update"}...)
 
 func init() {
 	core.Register(&core.Check{
@@ -1986,10 +2180,23 @@ func init() {
 		Rule: "twin histories: database A with a generated index set (single-field on every indexable kind incl. arrays, JSON, relation id; composite 2-3 fields with mixed directions; unique; " +
 			"created by SDL directive, by API before data, after data, dropped and re-created), database B without; same mutation history (collection API, GraphQL, UpdateWithFilter, DeleteWithFilter, " +
 			"commits merged from a third node); after every step a batch of generated queries (leaf operators per kind, _and/_or/_not depth<=3, order 1-3 keys, limit/offset, showDeleted, through-relation) on both. " +
-			"non-trivial = the indexed side's explain(execute) shows indexFetches>0 and the result is non-empty; distinct by (index classes, filter skeleton, order/limit class).",
-		Cases:  func(seed uint64, tier string) []core.Case { return twinCases(seed, tierN(tier, 120, 2000), false) },
-		Run:    runTwin,
-		Floors: twinFloors, CaseTimeout: 300 * time.Second,
+			"non-trivial = the indexed side's explain(execute) shows indexFetches>0 and the result is non-empty; distinct by (index classes, filter skeleton, order/limit class). " +
+			"The history also updates through partial document objects (client.NewDocWithID + Set). Dedicated twins on small schemas: index over counter fields (increments by API, GraphQL, UpdateWithFilter, merged commits), " +
+			"schema patches with SetActiveSchemaVersion back and forth and index DDL in between, document access control (index created by an identity that may not read every document; every requester asks both databases), " +
+			"writes through a collection handle fetched before index DDL.",
+		Cases: func(seed uint64, tier string) []core.Case {
+			return append(twinCases(seed, tierN(tier, 120, 2000), false), specialCases(seed, tierN(tier, 40, 600))...)
+		},
+		Run: func(ctx context.Context, c core.Case, r *core.Rec) {
+			for _, k := range []string{"twin/counter", "twin/versions", "twin/acp", "twin/stale-handle"} {
+				if strings.HasPrefix(c.Kind, k) {
+					runSpecial(ctx, c, r)
+					return
+				}
+			}
+			runTwin(ctx, c, r)
+		},
+		Floors: append(append([]string{}, twinFloors...), specialFloors...), CaseTimeout: 300 * time.Second,
 		Assumptions: []string{"the index-free twin is the reference: its scan path is judged by C08, not here",
 			"uniqueness predicate for composite unique indexes: only tuples whose components are all non-null are constrained",
 			"merged remote commits that a unique index rejects on A are not applied to B (the uniqueness clause speaks of local writes only)"},
